@@ -383,9 +383,11 @@ def list_deps(coredata: cdata.CoreData, builddata: build.Build, backend: backend
             'meson_variables': d.meson_variables,
         }
 
-    for d in coredata.deps.host.values():
-        if d.found():
-            result[d.name] = _create_result(d)
+    # only what is valid under the current search paths (DependencyCache.items() filters by the current sub-key)
+    for _, deps in coredata.deps.host.items():
+        for d in deps:
+            if d.found():
+                result[d.name] = _create_result(d)
 
     return list(result.values())
 
